@@ -31,7 +31,7 @@ CLAIMS = {
             ''),
     'C07': ('proof', 'Theorems C07_call, C07_call_return, C07_depth_limit on the ISA step, which the regenerated interpreter loop equals on every '
             'reachable state (C01_step_refines): a local call saves r6-r9 and the return address and lowers r10 by the recorded frame size; after any '
-            'callee execution the matching return resumes after the call with r6-r10 restored and r0-r5 passed through; the 9th nested call is an error. '
+            'callee execution the matching return resumes after the call with r6-r10 restored and r0-r5 passed through; the 9th nested call is an error. C07_stack_rs_pieces / C07_usage_map_is_stack_rs: the frame-size table of the model is what src/stack.rs computes (regenerated: a calculator\'s result used as it is, default 256, keys 0 and every local-call target). '
             'Theorem C07_jit_local_call (over the sequence emit_local_call emits, regenerated; stack machine X86Stk.v with rsp and byte memory): rbx, r13, r14, r15 = eBPF r6..r9 '
             'are saved and come back whatever the callee does to them, and nothing but rsp changes before the call -- so the callee is entered on the caller\'s frame '
             'pointer, which is known finding D18. Correspondence on call graphs (depth 0..9, forward/backward, recursion, calculators); the JIT is compared with the interpreter.',
